@@ -24,6 +24,9 @@ open DPL DPL.Discrete
 
 def rtol : Float := 1e-5
 def atol : Float := 1e-8
+/-- tolerances of the balanced-tree test of ExponentialCategorical (`np.isclose(z, z0, rtol=1e-12, atol=0)`) -/
+def catRtol : Float := 1e-12
+def catAtol : Float := 0
 def fuelFold : Nat := 8
 def fuelCoin : Nat := 100000
 
@@ -180,7 +183,7 @@ def step (_ : Unit) (ws : List String) : Unit × String :=
         | some (ul, value :: us) =>
           match value.toNat?, parseFs us with
           | some value, some us =>
-            match catBuild rtol atol eps ul with
+            match catBuild catRtol catAtol eps ul with
             | .ok c => "ok " ++ " ".intercalate (us.map (fun u => showEN (catRandomise eps c value u)))
             | .error e => e.toString
           | _, _ => "bad-op"
@@ -191,7 +194,7 @@ def step (_ : Unit) (ws : List String) : Unit × String :=
       | some eps, some t =>
         match parseTriples t rest with
         | some (ul, _) =>
-          match catBuild rtol atol eps ul with
+          match catBuild catRtol catAtol eps ul with
           | .ok c =>
             s!"ok {if c.balanced then 1 else 0} {showF c.sens} {c.domain.length} " ++
               " ".intercalate (c.domain.map toString) ++ " | " ++ showFs c.norm ++ " | " ++
